@@ -349,6 +349,12 @@ def main(argv=None):
         return 2
     entry = index[prop]
     os.makedirs(WORK, exist_ok=True)
+    if not a.replay:
+        rd = os.path.join(ROOT, "replays")
+        if os.path.isdir(rd):
+            for fn in os.listdir(rd):
+                if fn.startswith(prop + "-") and fn.endswith(".json"):
+                    os.remove(os.path.join(rd, fn))
 
     proof_fail = []       # undischarged obligations: (name, message)
     obligations = []
